@@ -4,6 +4,7 @@ import WnVerif.Model.Add
 import WnVerif.Model.Remove
 import WnVerif.Model.Api
 import WnVerif.Model.Morphy
+import WnVerif.Model.Txn
 open Lean
 namespace WnVerif.Drv
 open WnVerif.Db WnVerif.Doc
@@ -223,6 +224,12 @@ def opGlob (j : Json) : Json :=
     match asList c with
     | [p, s] => jBool (Glob.globS (asStr p) (asStr s))
     | _ => Json.null)
+
+/-- classification of a recorded SQL statement stream -/
+def opTrace (j : Json) : Json :=
+  let stmts := strList ((j.getObjVal? "stmts").toOption.getD (Json.arr #[]))
+  jObj [("units", match Txn.traceUnits stmts with | some n => jNat n | none => Json.null),
+        ("atomic", jBool (Txn.traceAtomic stmts (getNat j "units" 1)))]
 
 def opStore (j : Json) : Json :=
   let table : List (String × String) :=
